@@ -101,7 +101,28 @@ def check(ctx):
             if len(arms) == 1:
                 d = arms[0].a["delay"]
                 ka = ("param", "keepalive")
-                okd = (d == ("boolop", "Or", (ka, ("const", 10)))) or (isinstance(d, tuple) and d[0] == "ifexp" and set(d[1:3]) == {ka, ("const", 10)})
+                ten = ("const", 10)
+
+                def ka_truth(conds):
+                    # what the path has decided about `keepalive` being non-zero when the timer is armed
+                    for c in conds:
+                        t, pol = c.term, c.pol
+                        while isinstance(t, tuple) and t and t[0] == "not":
+                            t, pol = t[1], not pol
+                        if t == ka:
+                            return pol
+                        if isinstance(t, tuple) and t[:1] == ("cmp",) and t[2] == ka and t[3] == ("const", 0) and t[1] in ("==", "!=", ">"):
+                            return pol if t[1] in ("!=", ">") else (not pol)
+                    return None
+                okd = d == ("boolop", "Or", (ka, ten))
+                if isinstance(d, tuple) and d[0] == "ifexp":
+                    test = d[3] if len(d) > 3 else None
+                    okd = (d[1], d[2]) == (ka, ten) and test in (ka, ("cmp", "!=", ka, ("const", 0)), ("cmp", ">", ka, ("const", 0))) \
+                        or (d[1], d[2]) == (ten, ka) and test in (("not", ka), ("cmp", "==", ka, ("const", 0)))
+                # the same choice made by a branch before the timer is armed
+                kt = ka_truth(arms[0].conds)
+                if (d == ka and kt is True) or (d == ten and kt is False):
+                    okd = True
             ctx.ob("K1", "%s connect() arms one timeout of `keepalive or 10` seconds" % cq, okd, where=where(arms[0]) if arms else w,
                    function=ent.func.qual, construct="%s.connect/timeout" % cls.qual,
                    msg="timeout armed: %s" % [show(x.a["delay"]) for x in arms])
